@@ -24,7 +24,7 @@ func vhTimeoutMsg(w *cert.VWorld, s int, owner int, v hotstuff.View, si hotstuff
 func VH_C08_remote(n int, rule int, rel int, kind int, pos int) {
 	r := VNewReplica(n, rule, hotstuff.ID(2), vsymbolic())
 	w := r.W
-	q := hotstuff.QuorumSize(n)
+	q := hotstuff.VQuorumRef(n)
 	v := hotstuff.View(nondetU64("timeout-view"))
 	vassume(v >= 2 && v < 1<<40)
 	cur := v
